@@ -49,6 +49,29 @@ def _rot(v, w, n):
     return ((u << n) | (u >> (w - n))) & mask(w)
 
 
+def const_shape(c):
+    """Shape of an integer used as a constant: the narrowest that holds it, 0 being one unsigned bit."""
+    if c < 0:
+        return ((~c).bit_length() + 1, True)
+    return (max(c.bit_length(), 1), False)
+
+
+def pyop(op, x, y):
+    """Python integer semantics of a binary operator, with the documented `// 0` and `% 0` -> 0."""
+    if op == "//":
+        return ite(y == 0, 0, x // ite(y == 0, 1, y))
+    if op == "%":
+        return ite(y == 0, 0, x % ite(y == 0, 1, y))
+    if op in ("==", "!=", "<", "<=", ">", ">="):
+        import operator as o
+        f = {"==": o.eq, "!=": o.ne, "<": o.lt, "<=": o.le, ">": o.gt, ">=": o.ge}[op]
+        return ite(f(x, y), 1, 0)
+    import operator as o
+    f = {"+": o.add, "-": o.sub, "*": o.mul, "&": o.and_, "|": o.or_, "^": o.xor,
+         "<<": o.lshift, ">>": o.rshift}[op]
+    return f(x, y)
+
+
 def build(t):
     kind = t[0]
     if kind == "unop":
@@ -57,6 +80,12 @@ def build(t):
     if kind == "binop":
         _, op, sa, sb = t
         return [sa, sb], BINOPS[op], None
+    if kind == "cbinop":
+        # an operator with a Python integer on one side (reflected operator methods when on the left)
+        _, op, side, c, sh = t
+        if side == "l":
+            return [sh], (lambda a: BINOPS[op](c, a)), (lambda a: pyop(op, c, a))
+        return [sh], (lambda a: BINOPS[op](a, c)), (lambda a: pyop(op, a, c))
     if kind == "slice":
         _, sh, start, stop = t
         return [sh], (lambda a: a[start:stop]), (lambda a: (a >> start) & mask(stop - start))
@@ -180,6 +209,9 @@ def expected_shape(t, expr):
         return doc_shape(UNOP_TAG[t[1]], [t[2]])
     if kind == "binop":
         return doc_shape(t[1], [t[2], t[3]])
+    if kind == "cbinop":
+        _, op, side, c, sh = t
+        return doc_shape(op, [const_shape(c), sh] if side == "l" else [sh, const_shape(c)])
     if kind == "slice":
         return (t[3] - t[2], False)
     if kind == "index":
